@@ -270,6 +270,29 @@ def gen_groups(rng, tier):
                     groups.append(dict(kind="npseq", signed=first[0], n_bits=first[1], n_frac=first[2],
                                        formats=[list(t) for t in seq], xs=part, shape=shape, layout=layout,
                                        dtype=dtype))
+    # --- np.longdouble inputs (80-bit extended on this platform; the unchanged code is exact on them): values with
+    #     more than 53 significant bits next to the steps of the scaled line and next to both range ends
+    for s in (True, False):
+        for n in NP_BITS:
+            lo, hi = bounds(s, n)
+            for f in sorted(set([-4, 0, 4, n // 2, n - (1 if s else 0), rng.choice(fracs_all)])):
+                me = []
+                ks = [lo, lo + 1, hi, hi - 1, hi + 1, lo - 1, 0, 1, -1, 2, 31, hi // 3, (1 << 62) + 1, (1 << 53) + 1,
+                      -(1 << 62) - 1] + [rng.randint(lo - 3, hi + 3) for _ in range(20 if thorough else 8)]
+                for k in ks:
+                    room = 63 - max(k.bit_length(), 1)
+                    for j in sorted(set([room, room - 1, max(room - 7, 1), 1])):
+                        if j < 1:
+                            me.append([k, -f])
+                            continue
+                        for sg in (1, -1):
+                            me.append([k * (1 << j) + sg, -j - f])       # k +- 2^-j, scaled down by 2^f
+                    me.append([k, -f])
+                me = [list(t) for t in dict.fromkeys(tuple(t) for t in me) if abs(t[0]) < (1 << 64)]
+                rng.shuffle(me)
+                me = me[:(120 if thorough else 36)]
+                shape = [len(me)] if len(me) % 2 else [len(me) // 2, 2]
+                groups.append(dict(kind="ld", signed=s, n_bits=n, n_frac=f, me=me, shape=shape, nomodel=True))
     # --- numpy scalars as inputs of the scalar converters
     # (a) words handed over as numpy integer scalars of every width, n_frac negative too
     D1_OPEN = False    # fix_to_float on a numpy UNSIGNED word with the sign bit set computed in the word's dtype
@@ -463,7 +486,8 @@ def desc(g):
     return "%s(signed=%s, n_bits=%d, n_frac=%d)" % (
         {"fp": "float_to_fp", "np": "NumpyFloatToFixConverter", "fix": "float_to_fix", "unfix": "fix_to_float",
          "back": "fp_to_float/float_to_fp", "npback": "NumpyFixToFloatConverter",
-         "npseq": "NumpyFloatToFixConverter (first of a sequence)"}[g["kind"]],
+         "npseq": "NumpyFloatToFixConverter (first of a sequence)",
+         "ld": "NumpyFloatToFixConverter / float_to_fp / float_to_fix on longdouble"}[g["kind"]],
         g["signed"], g["n_bits"], g["n_frac"])
 
 
@@ -598,6 +622,28 @@ def oracle(chk, g, out, case=None, prefix=""):
                 fail("numpy:not-monotone", "%s array: x = %s gives %d but the larger x' = %s gives %d"
                      % (dt, a.hex(), oa, b_.hex(), ob), x=a.hex(), x2=b_.hex(), observed=[oa, ob])
                 break
+    elif kind == "ld":
+        if not out.get("platform"):
+            return
+        arr = out["array"]
+        sb = 1 if s else 0
+        if not isinstance(arr, dict) or len(arr["vals"]) != len(g["me"]) or arr["shape"] != list(g["shape"]):
+            fail("numpy:raises", "the array converter raised or changed the shape on a longdouble input of shape %r" % (g["shape"],))
+            arr = dict(vals=[None] * len(g["me"]))
+        for i, ((m, e), o, sc, fx) in enumerate(zip(g["me"], arr["vals"], out["scalar"], out["fix"])):
+            fr = Fraction(m) * pow2(e)
+            want = expected_fp(s, n, f, fr)
+            txt = "np.longdouble x = %d * 2^%d (%.21g)" % (m, e, float(fr))
+            if o is not None and o != want:
+                r = judge_fp(s, n, f, fr, o, "numpy")
+                fail("numpy:longdouble" if not r else r[0], "%s: array converter gives %r, the exact specification (and the "
+                     "scalar converter) give %r / %r" % (txt, o, want, sc), index=i, observed=[o, sc], expected=want)
+            if sc != want:
+                fail("fp:longdouble", "%s: float_to_fp gives %r, the exact specification gives %r" % (txt, sc, want),
+                     index=i, observed=sc, expected=want)
+            if 0 <= f <= n - sb and fx != want % (1 << n):
+                fail("fix:longdouble", "%s: float_to_fix gives %r, float_to_fp modulo 2^%d is %r" % (txt, fx, n, want % (1 << n)),
+                     index=i, observed=fx, expected=want % (1 << n))
     elif kind == "npback":
         arr, scal = out["array"], out["scalar"]
         # (input modification alone is not judged here: see the note in the "np" branch)
@@ -609,6 +655,14 @@ def oracle(chk, g, out, case=None, prefix=""):
         if arr["shape"] != list(g["shape"]) or len(arr["vals"]) != len(g["vs"]):
             fail("numpy-back:shape", "input shape %r, output shape %r" % (g["shape"], arr["shape"]))
             return
+        if out.get("is_float") is False:
+            fail("numpy-back:not-float", "%s input of shape %r: the result has dtype %s, not a float type"
+                 % (g.get("dtype"), g["shape"], arr.get("dtype")))
+        if out.get("shares_memory") or out.get("input_unchanged_after_edit") is False:
+            fail("numpy-back:aliases-input", "%s input of shape %r: the result shares memory with the caller's words "
+                 "(a float edit of the result %s the input)" % (
+                     g.get("dtype"), g["shape"],
+                     "changed" if out.get("input_unchanged_after_edit") is False else "would reach"))
         for i, (v, o, sc) in enumerate(zip(g["vs"], arr["vals"], scal)):
             if o != sc:
                 fail("numpy-back:disagrees-scalar", "element %d, v = %d: array converter gives %s, scalar fp_to_float gives %s"
@@ -672,7 +726,7 @@ HEADER = ("From Coq Require Import ZArith List Bool. Import ListNotations. Open 
 
 
 def inputs_of(g):
-    for k in ("xs", "vs", "wv"):
+    for k in ("xs", "vs", "wv", "me"):
         if k in g:
             return g[k]
     return []
@@ -684,6 +738,15 @@ def size(g):
 
 def classify(chk, g, out):
     kind, s, n, f = g["kind"], g["signed"], g["n_bits"], g["n_frac"]
+    if kind == "ld":
+        chk.count("groups:longdouble")
+        if isinstance(out, dict) and not out.get("platform"):
+            chk.count("longdouble:platform-has-no-80-bit-extended")
+            return
+        for m, e in g["me"]:
+            chk.count("longdouble:more-than-53-bits" if not is_double(m) else "longdouble:fits-a-double")
+            chk.note_case(["ld", s, n, f, m, e], m != 0)
+        return
     if kind == "npseq":
         chk.count("groups:npseq")
         chk.count("np-shape:%s/%s" % ("x".join(map(str, g["shape"])) or "0-d", g["layout"]))
@@ -757,6 +820,8 @@ def run(chk, args):
         "numpy scalars as inputs of the scalar converters: np.float64 behaves as a Python float; np.float32 / np.float16 "
         "are scaled in their own precision (same own-precision domain as for narrow arrays); words may be numpy "
         "integer scalars of any width, except a SIGNED numpy word of a signed format's own width (not an unsigned word)",
+        "np.longdouble inputs are judged only where numpy's longdouble is the 80-bit x87 format (the driver checks); "
+        "they are oracle-only (the Coq model is binary64)",
         "NaN elements are outside the domain and are not sent to the array converter (their integer cast is platform-defined)"]
     import time
     t0 = time.time()
@@ -862,7 +927,10 @@ def run(chk, args):
         "every array call the input array must be bit-identical; numpy float scalars (float64/32/16) into float_to_fp / "
         "float_to_fix at and around both range ends incl. exact powers of two; numpy integer scalars of every width as "
         "words of fp_to_float (n_frac -12..70, judged against the exact rational value) and fix_to_float; the array "
-        "converters under 8 ambient np.errstate settings; a malformed-format stream. thorough tier: all n_frac in -4..70 for the numpy widths, 600 values per "
+        "converters under 8 ambient np.errstate settings; np.longdouble arrays and scalars (x87 80-bit) with more than 53 "
+        "significant bits next to the steps of the scaled line and both range ends, judged against the exact value; the "
+        "float result of the array way back must be a float array that does not share memory with the input words; "
+        "a malformed-format stream. thorough tier: all n_frac in -4..70 for the numpy widths, 600 values per "
         "format, the model evaluated on every 4th format; exhaustive enumeration of every value of every 8-bit "
         "format (all n_frac; model + oracle) and of 16-bit formats (oracle) for the way back, scalar and array, and of "
         "all 256 words for fix_to_float. non-trivial = input inside the property's domain whose result is not "
